@@ -367,13 +367,108 @@ def parse_rule_text(text):
     return out
 
 
+def argindex_rules():
+    """one argument constraint at every index the specification allows
+    (0..63), as exact string and as path"""
+    out = []
+    for n in range(64):
+        out.append({'type': 'signal', 'arg%d' % n: 'x'})
+        out.append({'arg%dpath' % n: '/a/'})
+        if n in (0, 9, 10, 63):
+            out.append({'arg%d' % n: 'x', 'arg%d' % ((n + 11) % 64): 'y'})
+    return out
+
+
+def argindex_messages(rule):
+    """signals whose argument at each constrained index matches / differs /
+    is missing / is not a string"""
+    idx = sorted(int(k[3:].replace('path', '')) for k in rule
+                 if k.startswith('arg'))
+    top = idx[-1]
+    out = []
+    f = {'path': '/a/b', 'member': 'M', 'interface': 'a.b'}
+    good = {}
+    for k, v in rule.items():
+        if k.startswith('arg'):
+            good[int(k[3:].replace('path', ''))] = \
+                '/a/b' if k.endswith('path') else v
+    base = ['f%d' % i for i in range(top + 1)]
+    for i, v in good.items():
+        base[i] = v
+    out.append({'type': 4, 'fields': f, 'sig': 's' * len(base),
+                'body': list(base)})
+    for i in idx:
+        for wrong in ('z', '/b/'):
+            b = list(base)
+            b[i] = wrong
+            out.append({'type': 4, 'fields': f, 'sig': 's' * len(b),
+                        'body': b})
+        b = list(base)
+        b[i] = 7
+        out.append({'type': 4, 'fields': f,
+                    'sig': ''.join('u' if j == i else 's'
+                                   for j in range(len(b))), 'body': b})
+        # the constrained value one place too early / the body too short
+        out.append({'type': 4, 'fields': f, 'sig': 's' * i,
+                    'body': list(base[:i])})
+        if i:
+            b = ['f'] * (i - 1) + [base[i]]
+            out.append({'type': 4, 'fields': f, 'sig': 's' * len(b),
+                        'body': b})
+    out.append({'type': 1, 'fields': f, 'sig': 's' * len(base),
+                'body': list(base)})
+    return out
+
+
+def _task_argindex_router(task):
+    part, nparts = task
+    from txdbus import router as RT
+    res = core.Result()
+    for r in argindex_rules()[part::nparts]:
+        res.count('states')
+        rt = RT.MessageRouter()
+        hits = []
+        try:
+            rt.addMatch(lambda m: hits.append(1), **router_kwargs(r))
+        except Exception as e:
+            res.violation('%s/argindex/router-raises-%s'
+                          % (PROP, type(e).__name__),
+                          'MessageRouter.addMatch(%r) raised %r' % (r, e),
+                          {'part': 'argindex', 'rule': r}, size=1)
+            continue
+        for m in argindex_messages(r):
+            res.count('transitions')
+            res.count('evaluations')
+            del hits[:]
+            try:
+                rt.routeMessage(to_txmsg(m))
+            except Exception as e:
+                hits.append(repr(e))
+            want = 1 if ref_match(r, m) else 0
+            if want:
+                res.count('nontrivial')
+            if hits != [1] * want:
+                res.violation(
+                    '%s/argindex/router/%s' % (PROP, 'missed' if want
+                                               else 'spurious'),
+                    'rule %r against %s body %r: callback ran %r, expected '
+                    '%d' % (r, TYPE_NAMES[m['type']], m['body'], hits, want),
+                    {'part': 'pair', 'rule': r, 'msg': m}, size=len(r))
+    return res
+
+
 def _task_text(task):
     max_keys, part, nparts = task
     res = core.Result()
-    rs = [r for i, r in enumerate(rules(max_keys)) if i % nparts == part]
-    msgs = [m for m in messages(small=True) if m['type'] == 4
-            and 'destination' not in m['fields']]
+    if max_keys == 'argindex':
+        rs = argindex_rules()[part::nparts]
+    else:
+        rs = [r for i, r in enumerate(rules(max_keys)) if i % nparts == part]
+    std_msgs = [m for m in messages(small=True) if m['type'] == 4
+                and 'destination' not in m['fields']]
     for r in rs:
+        msgs = std_msgs if max_keys != 'argindex' else \
+            [m for m in argindex_messages(r) if m['type'] == 4]
         res.count('states')
         res.count('transitions')
         res.count('evaluations')
@@ -395,7 +490,7 @@ def _task_text(task):
         except Exception as e:
             res.violation('%s/text/raises-%s' % (PROP, type(e).__name__),
                           'addMatch(%r) raised %r' % (r, e),
-                          {'part': 'text', 'rule': r}, size=len(r))
+                          {'part': 'text', 'rule': r, 'argindex': max_keys == 'argindex'}, size=len(r))
             continue
         finally:
             cw.close()
@@ -406,7 +501,7 @@ def _task_text(task):
         if parsed != r:
             res.violation('%s/text/%s' % (PROP, _rtag(r)),
                           'rule %r was sent to the bus as %r, which says %r'
-                          % (r, text, parsed), {'part': 'text', 'rule': r},
+                          % (r, text, parsed), {'part': 'text', 'rule': r, 'argindex': max_keys == 'argindex'},
                           size=len(r))
             continue
         # the built-in bus must understand the same text the same way
@@ -420,7 +515,7 @@ def _task_text(task):
             res.violation('%s/text/bus-refuses/%s' % (PROP, _rtag(r)),
                           'the bus answered AddMatch(%r) with %r'
                           % (text, [(m['type'], m['body']) for m in rep]),
-                          {'part': 'text', 'rule': r}, size=len(r))
+                          {'part': 'text', 'rule': r, 'argindex': max_keys == 'argindex'}, size=len(r))
             continue
         for m in msgs:
             res.count('transitions')
@@ -438,7 +533,7 @@ def _task_text(task):
                     'bus rule %r, broadcast %r body %r: holder received %d '
                     'copies (expected %d), bystander %d'
                     % (text, f, m['body'], len(got), want, len(stray)),
-                    {'part': 'text', 'rule': r}, size=len(r))
+                    {'part': 'text', 'rule': r, 'argindex': max_keys == 'argindex'}, size=len(r))
                 break
         res.count('nontrivial')
         # removal at the bus: two connections hold the identical rule text;
@@ -457,7 +552,7 @@ def _task_text(task):
                               'RemoveMatch(%r) was answered %r'
                               % (text, [(m['type'], m['body'])
                                         for m in rep]),
-                              {'part': 'text', 'rule': r}, size=len(r))
+                              {'part': 'text', 'rule': r, 'argindex': max_keys == 'argindex'}, size=len(r))
                 break
             sender.send_raw(R.encode_message(
                 4, sender.next_serial(), dict(hit['fields']), hit['sig'],
@@ -473,7 +568,7 @@ def _task_text(task):
                     'matching broadcast reached the remover %d time(s) and '
                     'the other holder %d time(s)'
                     % (text, len(got_r), len(got_k)),
-                    {'part': 'text', 'rule': r}, size=len(r))
+                    {'part': 'text', 'rule': r, 'argindex': max_keys == 'argindex'}, size=len(r))
                 break
     if rs:
         res.sample({'rule': rs[-1], 'as_text': "see client AddMatch body"})
@@ -589,7 +684,10 @@ def run(ctx):
         'by an independent parser, and the same text given to the built-in '
         'bus, which must deliver broadcasts exactly as the matcher says. D: '
         'proxy notifyOnSignal / cancelSignalNotification with matching and '
-        'mismatching signatures'
+        'mismatching signatures. E: one argument constraint (exact string, '
+        'path) at every index 0..63 against signals whose argument there '
+        'matches, differs, is not a string, is missing or sits one place '
+        'early - through the router, the rule text and the built-in bus'
         % (KEYS, mk, len(rules(mk)), len(messages()), len(BODIES)))
     ctx.assumptions = ['sender and arg0namespace constraints are outside the '
                        'statement and not enumerated']
@@ -599,6 +697,8 @@ def run(ctx):
                     max_depth=5 if ctx.quick else 7,
                     label='add/remove/route histories')
     ctx.map(_task_text, [(2 if ctx.quick else 3, i, n) for i in range(n)])
+    ctx.map(_task_argindex_router, [(i, n) for i in range(n)])
+    ctx.map(_task_text, [('argindex', i, n) for i in range(n)])
     ctx.map(_task_proxy, [0])
     ctx.bounds = {'max_keys_per_rule': mk}
 
@@ -624,12 +724,14 @@ def replay(data):
         res2 = core.Result()
         # re-run just this rule
         import mcx.checks.c12 as me
-        saved = me.rules
+        saved = me.rules, me.argindex_rules
         me.rules = lambda k: [r]
+        me.argindex_rules = lambda: [r]
         try:
-            res2 = _task_text((len(r), 0, 1))
+            res2 = _task_text(('argindex' if data.get('argindex')
+                               else len(r), 0, 1))
         finally:
-            me.rules = saved
+            me.rules, me.argindex_rules = saved
         return [(s, v['what']) for s, v in res2.violations.items()]
     res = _task_proxy(0)
     return [(s, v['what']) for s, v in res.violations.items()]
